@@ -7,20 +7,18 @@ Import ListNotations.
 Local Open Scope string_scope.
 
 (* ================= annotation = image of the GraphQL type ================= *)
-Definition C06_ann_image_full : Prop := forall s cs t,
-  fst (parse_input_field_type s cs t true) = image s cs t true.
-
-(* proved outside finding class F21 (g21: no nullable item type under a list whose own flag is non-null) *)
-Theorem C06_input_ann_is_image_partial : forall s cs t nb, g21 t nb = true ->
+(* full statement, unguarded since the list-item fix 1ef155d (was: partial under g21 + refuted by [String]!) *)
+Theorem C06_input_ann_is_image : forall s cs t nb,
   fst (parse_input_field_type s cs t nb) = image s cs t nb.
 Proof. exact ann_is_image. Qed.
-Print Assumptions C06_input_ann_is_image_partial.
+Print Assumptions C06_input_ann_is_image.
 
-Theorem C06_ann_image_refuted : ~ C06_ann_image_full.
-Proof.
-  intro H. specialize (H [] [] (TNonNull (TList (TNamed "String")))). vm_compute in H. discriminate.
-Qed.
-Print Assumptions C06_ann_image_refuted.
+(* regression of the former F21 witness: nullable items under a non-null list are Optional now *)
+Example C06_nullable_items_under_nonnull_list :
+  fst (parse_input_field_type [] [] (TNonNull (TList (TNamed "String"))) true) = AList (AOpt AStr) /\
+  fst (parse_input_field_type [] [] (TList (TNonNull (TList (TNamed "Int")))) true)
+    = AOpt (AList (AList (AOpt AInt))).
+Proof. vm_compute. auto. Qed.
 
 (* ================= required iff non-null without schema default; wire name kept ================= *)
 Theorem C06_required_iff : forall s cs snake f,
@@ -46,33 +44,37 @@ Definition C06_accepts_full : Prop := forall s cs snake n t j cv,
   accepts n (env_of s cs snake) (fst (parse_input_field_type s cs t true)) j = true.
 
 (* proved for values keyed by GraphQL names (the alias side of populate_by_name), at every fuel the
-   coercion succeeds with, under the guards: schema_ok = no input type with colliding field names (F18),
-   no field type in class F21, no scalar named Upload; g21 for the top-level type *)
-Theorem C06_input_accepts_partial : forall s cs snake, schema_ok snake s = true ->
-  forall n t j cv, g21 t true = true -> coerce_input n s t j = Some cv ->
+   coercion succeeds with, under the guard schema_ok = no input type with colliding field names (F18) and no
+   scalar named Upload.  No exclusion for list shapes any more (F21 fixed by 1ef155d). *)
+Theorem C06_input_accepts : forall s cs snake, schema_ok snake s = true ->
+  forall n t j cv, coerce_input n s t j = Some cv ->
   accepts n (env_of s cs snake) (fst (parse_input_field_type s cs t true)) j = true.
 Proof.
-  intros s cs snake OK n t j cv G C.
-  apply (accepts_complete s cs snake OK n t true j cv G); [discriminate | exact C].
+  intros s cs snake OK n t j cv C.
+  apply (accepts_complete s cs snake OK n t true j cv); [discriminate | exact C].
 Qed.
-Print Assumptions C06_input_accepts_partial.
+Print Assumptions C06_input_accepts.
 
 Definition S21 : schema := [("In", DInput [{| i_name := "a"; i_type := TNonNull (TList (TNamed "String")); i_default := None |}])].
 Definition V21 : json := JObj [("a", JArr [JNull])].
 
-Theorem C06_accepts_refuted_nullable_item : exists s cs snake n t j cv,
-  coerce_input n s t j = Some cv /\
-  accepts n (env_of s cs snake) (fst (parse_input_field_type s cs t true)) j = false.
-Proof.
-  exists S21, [], true, 5, (TNonNull (TNamed "In")), V21, (CObj [("a", CList [CNull])]). vm_compute. auto.
-Qed.
-Print Assumptions C06_accepts_refuted_nullable_item.
+(* the former F21 witness is accepted now (kept as a regression case; K3 replays it on the real classes) *)
+Example C06_nullable_item_accepted :
+  coerce_input 5 S21 (TNonNull (TNamed "In")) V21 = Some (CObj [("a", CList [CNull])]) /\
+  accepts 5 (env_of S21 [] true) (fst (parse_input_field_type S21 [] (TNonNull (TNamed "In")) true)) V21 = true.
+Proof. vm_compute. auto. Qed.
 
+(* what still refutes the full statement: colliding field names (F18) *)
+Definition S18 : schema :=
+  [("In", DInput [{| i_name := "foo_bar"; i_type := TNamed "String"; i_default := None |};
+                  {| i_name := "fooBar"; i_type := TNamed "Int"; i_default := None |}])].
 Theorem C06_accepts_full_refuted : ~ C06_accepts_full.
 Proof.
-  intro H. specialize (H S21 [] true 5 (TNonNull (TNamed "In")) V21 (CObj [("a", CList [CNull])]) eq_refl).
+  intro H. specialize (H S18 [] true 5 (TNonNull (TNamed "In")) (JObj [("foo_bar", JStr "x")])
+                         (CObj [("foo_bar", CStr "x")]) eq_refl).
   vm_compute in H. discriminate.
 Qed.
+Print Assumptions C06_accepts_full_refuted.
 
 (* a value lacking a field the schema requires is refused (the key is absent under both names) *)
 Theorem C06_refuses_missing_required : forall s cs snake nm fs f kv n,
@@ -99,8 +101,8 @@ Definition C06_default_full : Prop := forall s cs snake f lit n cv m,
   exists b v, default_body (rhs_default (p_value (gen_field s cs snake f))) = Some b /\
               eval m (env_of s cs snake) b = Ok v /\ dump v = Some (json_of_cvalue cv).
 
-(* proved for literals in good_default: scalars of the type's own kind, enum values that are not Python
-   keywords, null, and (nested) lists of those; at every fuel, by induction on the literal *)
+(* proved for literals in good_default: scalars of the type's own kind, enum values (keyword-named ones
+   included since fix a742038), null, and (nested) lists of those; at every fuel, by induction on the literal *)
 Theorem C06_default_roundtrip_partial : forall s cs snake f lit n cv m,
   i_default f = Some lit -> good_default s lit (i_type f) = true ->
   coerced_default n s (i_type f) lit = Some cv ->
@@ -135,10 +137,11 @@ Theorem C06_default_refuted_list_obj :
   dump (VList [VFieldInfo]) = None.
 Proof. vm_compute. auto. Qed.
 
-(* enum default whose value is a Python keyword: Kind.class is a syntax error (the member is class_) *)
-Theorem C06_default_refuted_kw_enum :
+(* regression of the former F9c witness: a keyword-named enum value refers to the renamed member class_ *)
+Example C06_default_kw_enum_ok :
   let f := fld (TNamed "Kind") (CEnum "class") in
-  CD f = Some (CEnum "class") /\ EV f = Some (Err ESyntax).
+  CD f = Some (CEnum "class") /\ EV f = Some (Ok (VEnum "Kind" "class")) /\
+  good_default SD (CEnum "class") (TNamed "Kind") = true.
 Proof. vm_compute. auto. Qed.
 
 (* a single value for a list type / an Int literal for ID: emitted uncoerced *)
@@ -175,11 +178,11 @@ Definition JX : json :=
         ("self", JObj [("class", JArr [])])].
 
 Example C06_hypotheses_satisfiable :
-  schema_ok true SX = true /\ g21 (TNonNull (TNamed "In")) true = true /\
+  schema_ok true SX = true /\
   (exists cv, coerce_input 6 SX (TNonNull (TNamed "In")) JX = Some cv) /\
   accepts 6 (env_of SX [] true) (fst (parse_input_field_type SX [] (TNonNull (TNamed "In")) true)) JX = true /\
   good_default SX (CList [CList [CStr "x"]; CNull]) (TList (TList (TNonNull (TNamed "String")))) = true /\
-  good_default SX (CEnum "A") (TNamed "Kind") = true /\ good_default SX (CEnum "class") (TNamed "Kind") = false.
+  good_default SX (CEnum "A") (TNamed "Kind") = true /\ good_default SX (CEnum "class") (TNamed "Kind") = true.
 Proof. vm_compute. repeat split; eauto. Qed.
 
 (* an object default of scalars works in the model: instance with only required fields, dumped by alias *)
